@@ -17,7 +17,7 @@ def spec_graph(mol: Mol, targets, tag="rg", timeout=600):
         cfg = os.path.join(d, "MC.cfg")
         with open(cfg, "w") as f:
             f.write("SPECIFICATION Spec\nCONSTANTS\n Elems <- MCElems\n Tok <- MCTok\n Targets <- MCTargets\n"
-                    "INVARIANT IGraph\nINVARIANT Normalised\nINVARIANT WeightEdgesCompatible\nINVARIANT ExportGraph\n")
+                    "INVARIANT IGraph\nINVARIANT Normalised\nINVARIANT WeightEdgesCompatible\nINVARIANT ExportGraph\nCONSTRAINT Bound\n")
         r = run_tlc(d, "MC", cfg=cfg, workers=1, timeout=timeout, xmx="3g")
     graph = None
     for rec in r.printed:
